@@ -309,3 +309,20 @@ package shimagent
 //@        (!(sha(blobid(asKey(keysInAgent[j]))) in dom(s.upstreamSSHCACertCache)) && !(s.noUpstreamSSHCACert && hiddenBlob(blobid(asKey(keysInAgent[j])))))) ==>
 //@       exists(i, 0 <= i && i < len(keys), keys[i] == keysInAgent[j] || akBlob(keys[i]) == blobid(asKey(keysInAgent[j]))))
 //@     invariant [in-memory-certificates-stay-listed] forall(h#bytes, h in dom(s.certs), exists(i, 0 <= i && i < len(keys), akBlob(keys[i]) == blobid(asKey(s.certs[h]))))
+
+//@ # ---------------------------------------------------------------- Signers: the same purge and the same hiding rule as List
+//@ ghost func hiddenKey(k ssh.PublicKey) bool = keyutil.castable(k) && keyid.decOK(keyutil.keyIdOfKey(k))
+//@ func (*Server).Signers(s)
+//@   requires s != nil && inv(s) && unheld(s) && inv2(s)
+//@   modifies mstate(addrof(s.mu)), mapof(s.certs), mapof(s.upstreamSSHCACertCache)
+//@   let f0 = old(calls(filter))
+//@   let g0 = old(calls(Agent.Signers))
+//@   ensures unheld(s) && inv(s) && inv2(s)
+//@   ensures [locked-refuses] old(s.locked) ==> (result0 == nil && result1 != nil && calls(filter) == f0 && calls(Agent.Signers) == g0 &&
+//@     mapdom(s.certs) == old(mapdom(s.certs)) && mapdom(s.upstreamSSHCACertCache) == old(mapdom(s.upstreamSSHCACertCache)))
+//@   ensures [purge-before-answering] !old(s.locked) ==> (calls(filter) == f0 + 1 && arg(filter, f0, 0) == s)
+//@   ensures [purge-failure-surfaces] (!old(s.locked) && ret(filter, f0, 2) != nil) ==> (result0 == nil && result1 == ret(filter, f0, 2) && calls(Agent.Signers) == g0)
+//@   ensures [upstream-signers-asked-once-after-the-purge] (!old(s.locked) && ret(filter, f0, 2) == nil) ==> (calls(Agent.Signers) == g0 + 1 && arg(Agent.Signers, g0, 0) == s.agent)
+//@   ensures [upstream-failure-surfaces] (!old(s.locked) && ret(filter, f0, 2) == nil && ret(Agent.Signers, g0, 1) != nil) ==> (result0 == nil && result1 == ret(Agent.Signers, g0, 1))
+//@   ensures [no-hidden-upstream-signer] (!old(s.locked) && result1 == nil) ==> forall(i, 0 <= i && i < len(result0), result0[i] != nil &&
+//@     (typeof(result0[i]) == signer || (s.noUpstreamSSHCACert ==> !hiddenKey(signerKey(result0[i])))))
